@@ -140,6 +140,8 @@ V_COLORCHOICE = {
         "AtomicChoice": {"coq": "ch_atomic", "var": "a", "fields": {"0": ("ac_f0", "set_ac_f0", REG)}},
     },
     "consts": {},
+    # `Self::Auto` inside `impl Default for ColorChoice` (rustc rejects `Self::<variant>` in the impls of AtomicChoice)
+    "paths": {"Self::" + c: ("Ch" + c, CHOICE) for c in CHOICES},
     "statics": {"USER": ATOMIC},
     "static_use": {"ColorChoice::global": [("USER", "in")], "ColorChoice::write_global": [("USER", "inout")]},
     "interior_mut": ["AtomicChoice::set"],
@@ -243,6 +245,8 @@ def register(generators, gm):
                 ("set", "AtomicChoice", "g_atomic_set", {}),
                 ("global", "ColorChoice", "g_global", {}),
                 ("write_global", "ColorChoice", "g_write_global", {}),
+                ("default", "ColorChoice", "g_choice_default", {"trait": "Default"}),
+                ("default", "AtomicChoice", "g_atomic_default", {"trait": "Default"}),
             ], "", "", shapes))
             out.append("(* static USER: AtomicChoice = AtomicChoice::new(); *)\nDefinition g_user_initial : %sch_atomic := g_atomic_new.\n"
                        % ("" if shapes["AtomicChoice::new"]["total"] else "option "))
